@@ -145,6 +145,24 @@ fault('cursor-assigned-not-advanced', ['C08'], ('decode.py',
 fault('key-length-read-unchecked', ['C08'], ('decode.py',
       "            key_length = common.Struct.byte.unpack_from(value, offset)[0]\n            offset += 1",
       "            key_length = value[offset] if offset < len(value) else 0\n            offset += 1"))
+# found by the systematic mutation sweep (tools/mutsweep.py): mutants the
+# test-suite and, at first, every check let pass
+fault('ms-decimal-or', ['C03'], ('encode.py',
+      "isinstance(exponent, int) and exponent < 0",
+      "isinstance(exponent, int) or exponent < 0"))
+fault('ms-decimal-minus-one', ['C10'], ('encode.py',
+      "isinstance(exponent, int) and exponent < 0",
+      "isinstance(exponent, int) and exponent < -1"))
+fault('ms-bit-true-refused', ['C01'], ('encode.py',
+      "not 0 <= value <= 1", "not 0 <= value <= 0"))
+fault('ms-key-limit-129', ['C04'], ('encode.py',
+      "if len(key) > 128:", "if len(key) > 129:"))
+fault('ms-continuation-bit-1', ['C05'], ('header.py',
+      "if not partial_flags & 1:", "if not partial_flags & 2:"))
+fault('ms-continuation-never', ['C05'], ('header.py',
+      "if not partial_flags & 1:", "if not partial_flags & 0:"))
+fault('ms-protocol-header-consumed', ['C18'], ('header.py',
+      "        return 8", "        return 9"))
 fault('revert-F12-reported-count', ['C08'], ('decode.py',
       "            data[key] = result\n        return offset, data",
       "            data[key] = result\n        return field_table_end, data"))
